@@ -50,7 +50,7 @@ checks.sort(key=lambda c:c["property_id"])
 claimed={c["property_id"] for c in checks}
 m={"version":1,"setup_cmd":"./setup.sh",
  "hooks":{"guard":"none in /repo: seams are added at check time by redirecting the imports \"sync\" and \"sync/atomic\" of a scratch copy of the working tree to shim packages (tools/instrument); /repo carries no hook code",
-          "enable":"./check <ID> <tier> copies /repo's working tree to /var/tmp/verif-work/<tmp>/repo, (for C09/C10/C17) copies /verif/shim into it as verifshim/ and runs bin/instrument over the non-test sources, then builds /verif/sim against that copy (with -race for C09)",
+          "enable":"./check <ID> <tier> copies /repo's working tree to /var/tmp/verif-work/<tmp>/repo, copies /verif/shim into it as verifshim/ and runs bin/instrument over the non-test sources (all engines), then builds /verif/sim against that copy (with -race for C09)",
           "baseline_off_cmd":"cd /repo && GOFLAGS=-mod=mod go test -vet=off -count=1 ./...",
           "source_commits":[],"add_only":True},
  "engines":engines,
